@@ -86,13 +86,31 @@ func runC07Big(h *H) {
 	if h.N >= 3 && h.N < len(kinds) {
 		kinds = kinds[:h.N]
 	}
+	type job struct {
+		s    c14ColSpec
+		rows int // 0: a body just beyond 1 MiB
+	}
+	var jobs []job
 	for _, s := range kinds {
+		jobs = append(jobs, job{s, 0})
+	}
+	// columns without values (Nothing: one placeholder byte per row, skipped by the decoder) at row counts that are
+	// whole multiples of the sizes readers work in: what is skipped must still have been there
+	nothing := []c14ColSpec{{typ: "Nothing"}, {typ: "Nullable(Nothing)"}, {typ: "Array(Nothing)"}}
+	for i, rows := range []int{1 << 16, 1 << 17, 3 << 16, 1 << 20} {
+		jobs = append(jobs, job{nothing[(i+int(h.Seed))%len(nothing)], rows})
+	}
+	for _, j := range jobs {
+		s := j.s
 		width := c07BigWidth(s)
 		if width == 0 {
 			h.Stat("c07big.skipped.width")
 			continue
 		}
 		rows := (1<<20)/width + 1 + (1<<16+h.R.Intn(1<<17))/width
+		if j.rows > 0 {
+			rows = j.rows
+		}
 		big, err := c07BigCol(s, rows, width, h.R)
 		if err != nil {
 			h.Stat("c07big.skipped.build")
@@ -118,6 +136,9 @@ func runC07Big(h *H) {
 			len(w) - width - 1, len(w) - width, len(w) - 2, len(w) - 1}
 		for i := 0; i < 3; i++ {
 			cuts = append(cuts, start+h.R.Intn(bodyLen))
+		}
+		for k := 1; k <= 3; k++ { // around every 64 KiB step counted from the end of the body
+			cuts = append(cuts, len(w)-k<<16-1, len(w)-k<<16, len(w)-k<<16+1)
 		}
 		auto := c14Guard(func() error { return new(proto.ColAuto).Infer(big.Type()) }) == nil
 		for _, useAuto := range []bool{false, true} {
